@@ -18,9 +18,11 @@ LEVEL = "translation_validation"
 # FRESH (below) decides checked-in = fresh. "fresh = VM" on the meta-grammar is an instance of C02's generator/VM
 # agreement, decided for every construct (grammar.pest uses no grammar-extras construct, so the default configuration).
 DEPENDS = [
-    ("C02", {"configs": ["default"],
+    ("C02", {"skip_keys": ["NodeTag"],
              "why": "the VM run of grammar.pest agrees with the generated parser iff each construct, rule modifier, "
-                    "built-in, skip case and entry dispatch is translated alike"}),
+                    "built-in, skip case and entry dispatch is translated alike - in the default build and in a build "
+                    "with grammar-extras (where `e+` reaches the back-ends as its own node); grammar.pest uses no node "
+                    "tags, so the known tag divergence of C02 is not an obligation here"}),
 ]
 
 MANIFEST = {
